@@ -20,10 +20,10 @@ const (
 )
 
 var kindName = [NKinds]string{"H8", "H16", "H32", "H64", "HPr", "HPo", "HIt"}
-var kindWidth = [NKinds]int{8, 16, 32, 64, 32, 64, 32}
+var kindWidth = [NKinds]int{8, 16, 32, 64, RgnW, 64, TypW}
 
 func innerSort(k int) *Sort { return ArrSort(BV(64), BV(kindWidth[k])) }
-func heapSort(k int) *Sort  { return ArrSort(BV(32), innerSort(k)) }
+func heapSort(k int) *Sort  { return ArrSort(BV(RgnW), innerSort(k)) }
 
 type Heap struct {
 	K [NKinds]*Term
@@ -271,7 +271,7 @@ func (c *Ctx) copyRange(h *Heap, dst, src Ptr, nbytes *Term, elemT types.Type, s
 		srcInner := c.Select(srcHeap.K[k], src.R)
 		newInner := c.FreshVar(fmt.Sprintf("cp%s", kindName[k]), innerSort(k))
 		j := c.FreshVar("j", BV(64))
-		inr := c.And(c.Ule(dst.O, j), c.Ult(j, c.Add(dst.O, nbytes)))
+		inr := c.Ult(c.Sub(j, dst.O), nbytes) // j in [dst, dst+n), wrap-safe single comparison
 		body := c.Eq(c.mkSelectRaw(newInner, j),
 			c.Ite(inr, c.Select(srcInner, c.Add(src.O, c.Sub(j, dst.O))), c.Select(oldInner, j)))
 		facts = append(facts, &QFact{Bound: j, Body: body, Trig: []Trigger{{Arr: newInner}}})
@@ -285,7 +285,7 @@ func (c *Ctx) mkSelectRaw(a, i *Term) *Term { return c.Select(a, i) }
 
 // havocRange replaces the cells of region r in [lo, hi) (byte offsets) for the kinds of elemT by
 // unknown contents, keeping everything else (frame fact).
-func (c *Ctx) havocRange(h *Heap, r *Term, lo, hi *Term, elemT types.Type) []*QFact {
+func (c *Ctx) havocRange(h *Heap, r *Term, lo, hi *Term, elemT types.Type, cond *Term) []*QFact {
 	var ks [NKinds]bool
 	kindsOf(elemT, &ks)
 	var facts []*QFact
@@ -296,7 +296,10 @@ func (c *Ctx) havocRange(h *Heap, r *Term, lo, hi *Term, elemT types.Type) []*QF
 		oldInner := c.Select(h.K[k], r)
 		newInner := c.FreshVar(fmt.Sprintf("hv%s", kindName[k]), innerSort(k))
 		j := c.FreshVar("j", BV(64))
-		inr := c.And(c.Ule(lo, j), c.Ult(j, hi))
+		inr := c.Ult(c.Sub(j, lo), c.Sub(hi, lo))
+		if cond != nil {
+			inr = c.And(cond, inr)
+		}
 		body := c.Or(inr, c.Eq(c.Select(newInner, j), c.Select(oldInner, j)))
 		facts = append(facts, &QFact{Bound: j, Body: body, Trig: []Trigger{{Arr: newInner}}})
 		h.K[k] = c.Store(h.K[k], r, newInner)
